@@ -206,12 +206,7 @@ func (n *Node) Kill() {
 	// a dead process does nothing any more: let the background tasks of its database finish before
 	// anybody reuses its directory
 	if db := n.Op.VerifDB(); db != nil {
-		d := make(chan struct{})
-		go func() { db.WaitOnTasks(); close(d) }()
-		select {
-		case <-d:
-		case <-time.After(Watchdog):
-		}
+		lib.DKVIdle(Watchdog)
 	}
 }
 
@@ -302,7 +297,7 @@ func ReadCheckpoint(scratchDir string, handles []recovery.CheckpointHandle) ([]R
 	if scanErr != nil {
 		return nil, scanErr
 	}
-	db.WaitOnTasks()
+	lib.DKVIdle(Watchdog)
 	return rows, nil
 }
 
